@@ -4,10 +4,14 @@ package apph
 // mutants on a fork-family chain (FrankensteinBlock = 1). Monitor: the original is admitted,
 // every mutant must be refused by CheckTx and, delivered directly in a block on replica A only,
 // must fail and leave A equal to B. Correspondence: for the mutants that touch nothing but what
-// `validateSigner` and the memo rule look at, the CheckTx verdict against `olvmSigOK`, with the
-// sender recovery answered by go-ethereum called directly.
+// `validateSigner`, the envelope rules and the memo rule look at, the CheckTx verdict against
+// `olvmSig`, with the sender recovery answered by go-ethereum called directly. The scenarios of
+// the repaired defects (access list / type field / memo spelling / public key alterable after
+// signing; payload JSON re-spelled after signing; wrong signature length or missing chain id
+// closing the node) are ordinary mutant classes here: refused, without effect, application open.
 
 import (
+	"bytes"
 	"crypto/ecdsa"
 	"crypto/sha256"
 	"fmt"
@@ -52,6 +56,8 @@ type olvmTxn struct {
 	Fee  action.Fee
 	Memo string
 	Sigs []action.Signature
+	// RawData, when set, is sent as the payload instead of P.Marshal() (other spellings of the same JSON value)
+	RawData []byte
 }
 
 func (t *olvmTxn) ethTx() *ethtypes.Transaction {
@@ -76,6 +82,9 @@ func (t *olvmTxn) bytes() []byte {
 	d, err := t.P.Marshal()
 	if err != nil {
 		panic(err)
+	}
+	if t.RawData != nil {
+		d = t.RawData
 	}
 	st := action.SignedTx{RawTx: action.RawTx{Type: t.Type, Data: d, Fee: t.Fee, Memo: t.Memo}, Signatures: t.Sigs}
 	return serSigned(&st)
@@ -118,15 +127,6 @@ type olvmClass struct {
 	Name    string
 	SigOnly bool
 	Apply   func(t *olvmTxn, r *rng.R, chainID *big.Int, victim, attacker *olvmAcct)
-}
-
-// olvmCrashClasses: mutants the model predicts to PANIC inside the handler (handlePanic then
-// closes the application). Each is offered last, to a replica that is not needed any more.
-var olvmCrashClasses = []olvmClass{
-	{"sig-truncated", true, func(t *olvmTxn, r *rng.R, c *big.Int, v, a *olvmAcct) { t.Sigs[0].Signed = t.Sigs[0].Signed[:64] }},
-	{"sig-empty", true, func(t *olvmTxn, r *rng.R, c *big.Int, v, a *olvmAcct) { t.Sigs[0].Signed = nil }},
-	{"sig-extended", true, func(t *olvmTxn, r *rng.R, c *big.Int, v, a *olvmAcct) { t.Sigs[0].Signed = append(t.Sigs[0].Signed, 0) }},
-	{"payload-chainid-null", true, func(t *olvmTxn, r *rng.R, c *big.Int, v, a *olvmAcct) { t.P.ChainID = nil }},
 }
 
 var olvmClasses = []olvmClass{
@@ -182,6 +182,39 @@ var olvmClasses = []olvmClass{
 		}
 	}},
 	{"sig-recovery-id-5", true, func(t *olvmTxn, r *rng.R, c *big.Int, v, a *olvmAcct) { t.Sigs[0].Signed[64] = 5 }}, // V then encodes another chain id
+	{"sig-truncated", true, func(t *olvmTxn, r *rng.R, c *big.Int, v, a *olvmAcct) { t.Sigs[0].Signed = t.Sigs[0].Signed[:64] }},
+	{"sig-empty", true, func(t *olvmTxn, r *rng.R, c *big.Int, v, a *olvmAcct) { t.Sigs[0].Signed = nil }},
+	{"sig-extended", true, func(t *olvmTxn, r *rng.R, c *big.Int, v, a *olvmAcct) { t.Sigs[0].Signed = append(t.Sigs[0].Signed, 0) }},
+	{"payload-chainid-null", true, func(t *olvmTxn, r *rng.R, c *big.Int, v, a *olvmAcct) { t.P.ChainID = nil }},
+	{"access-list-empty", true, func(t *olvmTxn, r *rng.R, c *big.Int, v, a *olvmAcct) { t.P.AccessList = &ethtypes.AccessList{} }},
+	{"signer-pubkey-alg-changed", true, func(t *olvmTxn, r *rng.R, c *big.Int, v, a *olvmAcct) { t.Sigs[0].Signer.KeyType = keys.SECP256K1 }},
+	{"signer-pubkey-unknown-alg", true, func(t *olvmTxn, r *rng.R, c *big.Int, v, a *olvmAcct) { t.Sigs[0].Signer.KeyType = 0 }},
+	{"signer-pubkey-empty", true, func(t *olvmTxn, r *rng.R, c *big.Int, v, a *olvmAcct) { t.Sigs[0].Signer = keys.PublicKey{} }},
+	{"payload-json-respaced", true, func(t *olvmTxn, r *rng.R, c *big.Int, v, a *olvmAcct) {
+		d, _ := t.P.Marshal()
+		t.RawData = append([]byte("{ "), d[1:]...)
+	}},
+	{"payload-json-unknown-field", true, func(t *olvmTxn, r *rng.R, c *big.Int, v, a *olvmAcct) {
+		d, _ := t.P.Marshal()
+		t.RawData = append([]byte(`{"x":1,`), d[1:]...)
+	}},
+	{"payload-json-trailing-space", true, func(t *olvmTxn, r *rng.R, c *big.Int, v, a *olvmAcct) {
+		d, _ := t.P.Marshal()
+		t.RawData = append(d, ' ')
+	}},
+	{"payload-json-key-moved", true, func(t *olvmTxn, r *rng.R, c *big.Int, v, a *olvmAcct) {
+		// `"nonce":N,` moved behind the next key
+		d, _ := t.P.Marshal()
+		head := fmt.Sprintf(`{"nonce":%d,`, t.P.Nonce)
+		if bytes.HasPrefix(d, []byte(head)) {
+			rest := d[len(head):]
+			if i := bytes.IndexByte(rest, ','); i > 0 {
+				t.RawData = []byte("{" + string(rest[:i+1]) + head[1:] + string(rest[i+1:]))
+				return
+			}
+		}
+		t.RawData = append([]byte("{\n"), d[1:]...)
+	}},
 	{"no-signatures", true, func(t *olvmTxn, r *rng.R, c *big.Int, v, a *olvmAcct) { t.Sigs = []action.Signature{} }},
 	{"two-signatures", true, func(t *olvmTxn, r *rng.R, c *big.Int, v, a *olvmAcct) { t.Sigs = append(t.Sigs, t.Sigs[0]) }},
 	{"resigned-by-other-key", true, func(t *olvmTxn, r *rng.R, c *big.Int, v, a *olvmAcct) {
@@ -213,7 +246,25 @@ func olvmLine(t *olvmTxn, headerChainID *big.Int) string {
 	if t.P.ChainID != nil {
 		pc = t.P.ChainID.String()
 	}
-	return fmt.Sprintf("olvm %d %d %s %s %s %s %d %s", len(t.Sigs), sl, dc, rs, pc, hexTok(t.P.From), t.P.Nonce, hexTok([]byte(t.Memo)))
+	ka := "~"
+	if len(t.Sigs) == 1 {
+		if a, ok := primAddr(t.Sigs[0].Signer); ok {
+			ka = hexTok(a)
+		}
+	}
+	// is the payload as sent the encoding Marshal gives to what it decodes to?
+	sent, _ := t.P.Marshal()
+	if t.RawData != nil {
+		sent = t.RawData
+	}
+	canon := false
+	var back olvm.Transaction
+	if back.Unmarshal(sent) == nil {
+		if c, err := back.Marshal(); err == nil {
+			canon = bytes.Equal(c, sent)
+		}
+	}
+	return fmt.Sprintf("olvm %d %d %s %s %s %s %d %s %s %d %s %s", len(t.Sigs), sl, dc, rs, pc, hexTok(t.P.From), t.P.Nonce, hexTok([]byte(t.Memo)), ka, t.P.TxType, b01(t.P.AccessList != nil), b01(canon))
 }
 
 func olvmVerdict(code uint32, crashed bool) string {
@@ -328,6 +379,12 @@ func runSigOlvmCase(engineSeed uint64, c int, res *Result, add func(op, im strin
 				replayOp = hl.Lines[0]
 				add(olvmLine(m, chainID), olvmVerdict(cr.Code, A.Crashed), true)
 			}
+			if A.Crashed {
+				hitOnce(res, "olvm-mutant-closed-node-in-checktx:"+cl.Name, c, "CheckTx of an OLVM transaction with "+cl.Name+": panic in the handler, handlePanic closed the application", hl.Lines)
+				A.Close()
+				B.Close()
+				return nil
+			}
 			if cr.Code == 0 {
 				hitOnce(res, "olvm-mutant-admitted-by-checktx:"+cl.Name, c, fmt.Sprintf("OLVM transaction with %s after signing: CheckTx code 0", cl.Name), hl.Lines)
 			}
@@ -347,6 +404,12 @@ func runSigOlvmCase(engineSeed uint64, c int, res *Result, add func(op, im strin
 		rb3 := B.ExecBlock(b3)
 		sim.Absorb(b3, rb3)
 		res.Distribution[fmt.Sprintf("olvm:%s:deliver:%d", cl.Name, ra3.Txs[0].Code)]++
+		if A.Crashed {
+			hitOnce(res, "olvm-mutant-closed-node-in-delivertx:"+cl.Name, c, "DeliverTx of an OLVM transaction with "+cl.Name+": panic in the handler, handlePanic closed the application (every node executing the block stops)", hl.Lines)
+			A.Close()
+			B.Close()
+			return nil
+		}
 		executed := ra3.Txs[0].Code == 0
 		if !executed {
 			cmp := &BlockResult{Height: ra3.Height, Txs: nil, Updates: ra3.Updates, AppHash: ra3.AppHash}
@@ -366,36 +429,6 @@ func runSigOlvmCase(engineSeed uint64, c int, res *Result, add func(op, im strin
 				cl.Name, ra3.Txs[0].GasUsed, rb4.Txs[0].GasUsed, ra4.Txs[0].Code, BalanceOf(da, victim.addr, "OLT"), BalanceOf(db, victim.addr, "OLT")), hl.Lines)
 		} else if ra4.Transcript() != rb4.Transcript() {
 			hitOnce(res, "olvm-mutant-changed-state:"+cl.Name, c, "after a failed mutant the original behaves differently: "+diffDumps(A.Dump(), B.Dump()), hl.Lines)
-		}
-		// the mutants predicted to panic: one per case, alternately through CheckTx (replica A)
-		// and directly in a block (replica B); the replica is lost afterwards
-		cc := olvmCrashClasses[c%len(olvmCrashClasses)]
-		m := orig.clone()
-		m.P.Nonce, m.Memo = 2, "2"
-		m.Sigs[0].Signed = m.sign(chainID, victim)
-		cc.Apply(m, r, chainID, victim, attacker)
-		mb := m.bytes()
-		if (c/len(olvmCrashClasses))%2 == 0 {
-			cr := A.CheckTx(mb)
-			hl.Add("  mutant %s checktx=%d closed=%v %x", cc.Name, cr.Code, A.Crashed, mb)
-			replayOp = hl.Lines[0]
-			add(olvmLine(m, chainID), olvmVerdict(cr.Code, A.Crashed), true)
-			res.Distribution[fmt.Sprintf("olvm:%s:check:closed=%v", cc.Name, A.Crashed)]++
-			if A.Crashed {
-				hitOnce(res, "olvm-mutant-closed-node-in-checktx:"+cc.Name, c, "CheckTx of an OLVM transaction with "+cc.Name+": panic in the handler, handlePanic closed the application", hl.Lines)
-			} else if cr.Code == 0 {
-				hitOnce(res, "olvm-mutant-admitted-by-checktx:"+cc.Name, c, "CheckTx code 0", hl.Lines)
-			}
-		} else {
-			b5 := sim.NextBlock([][]byte{mb}, BlockOpts{DtSeconds: 1})
-			rb5 := B.ExecBlock(b5)
-			hl.Add("block 5 (replica B): mutant %s delivertx=%d closed=%v %x", cc.Name, rb5.Txs[0].Code, B.Crashed, mb)
-			res.Distribution[fmt.Sprintf("olvm:%s:deliver:closed=%v", cc.Name, B.Crashed)]++
-			if B.Crashed {
-				hitOnce(res, "olvm-mutant-closed-node-in-delivertx:"+cc.Name, c, "DeliverTx of an OLVM transaction with "+cc.Name+": panic in the handler, handlePanic closed the application (every node executing the block stops)", hl.Lines)
-			} else if rb5.Txs[0].Code == 0 {
-				hitOnce(res, "olvm-mutant-executed-by-delivertx:"+cc.Name, c, "DeliverTx code 0", hl.Lines)
-			}
 		}
 		A.Close()
 		B.Close()
